@@ -2,6 +2,7 @@ package storage
 
 import (
 	"fmt"
+	"github.com/lab5e/lospan/pkg/verifgate"
 
 	"database/sql"
 
@@ -175,6 +176,9 @@ func (s *Storage) getGateway(rows *sql.Rows, err error) (model.Gateway, error) {
 
 // GetGateway returns a gateway from the store
 func (s *Storage) GetGateway(eui protocol.EUI) (model.Gateway, error) {
+	if err := verifgate.Gate("GetGateway"); err != nil {
+		return model.Gateway{}, err
+	}
 	s.mutex.Lock()
 	defer s.mutex.Unlock()
 
